@@ -168,15 +168,15 @@ func (in *Interp) intrinsic(name string, args []Value, caller *frame) Value {
 	case "vIteStr":
 		return in.iteStr(args[0].(*Term), args[1].(*Str), args[2].(*Str))
 	case "vEqStr":
-		return in.strEq(args[0].(*Str), args[1].(*Str))
+		return in.simp(in.strEq(args[0].(*Str), args[1].(*Str)))
 	case "vEqInt", "vEqByte":
-		return tf.Eq(args[0].(IntV).T, args[1].(IntV).T)
+		return in.simp(tf.Eq(args[0].(IntV).T, args[1].(IntV).T))
 	case "vLeByte":
-		return tf.Cmp(OpUle, args[0].(IntV).T, args[1].(IntV).T)
+		return in.simp(tf.Cmp(OpUle, args[0].(IntV).T, args[1].(IntV).T))
 	case "vLtInt":
-		return tf.Cmp(OpSlt, args[0].(IntV).T, args[1].(IntV).T)
+		return in.simp(tf.Cmp(OpSlt, args[0].(IntV).T, args[1].(IntV).T))
 	case "vLeInt":
-		return tf.Cmp(OpSle, args[0].(IntV).T, args[1].(IntV).T)
+		return in.simp(tf.Cmp(OpSle, args[0].(IntV).T, args[1].(IntV).T))
 	case "vHasPrefix":
 		return in.strHasPrefix(args[0].(*Str), args[1].(*Str), false)
 	case "vUFBool":
@@ -276,7 +276,17 @@ func (in *Interp) doAssert(id string, c *Term) {
 		return
 	}
 	nc := in.tf.Not(c)
-	r, model := in.sol.Check(nc, in.vars)
+	if v, known := in.triBool(c, 0); known && v {
+		in.asserts = append(in.asserts, AssertRec{ID: id, Verdict: "pass"})
+		return
+	}
+	var r SatResult
+	var model map[string]uint64
+	if in.model != nil && EvalTerm(nc, in.model, in.modelMemo) == 1 {
+		r, model = Sat, in.model
+	} else {
+		r, model = in.sol.Check(nc, in.vars)
+	}
 	if r == Sat {
 		// validate the model against the path condition and the negated assertion
 		memo := map[int]uint64{}
@@ -413,4 +423,15 @@ func sortedKeys(m map[string]int) []string {
 	}
 	sort.Strings(ks)
 	return ks
+}
+
+// simp replaces a term by a constant when the recorded facts decide it.
+func (in *Interp) simp(t *Term) *Term {
+	if t.IsConst() {
+		return t
+	}
+	if v, known := in.triBool(t, 0); known {
+		return in.tf.Bool(v)
+	}
+	return t
 }
